@@ -80,15 +80,15 @@ def strategy(ctx):
 
 
 def run(ctx):
-    n = 32 if ctx.quick else 400
+    n = 24 if ctx.quick else 400
     cases = configs.collect(strategy(ctx), ctx.seed, n)
     cases += runcheck.known_cases("C05")
     return runcheck.execute_cases(ctx, "c05", cases, make_history, judge)
 
 
 def health(ctx, stats):
-    need = {"completed": 12, "sampler:ins": 4, "sampler:standard": 8,
-            "finalised": 5, "stopped-by-cap": 2}
+    need = {"completed": 8, "sampler:ins": 2, "sampler:standard": 4,
+            "finalised": 2, "stopped-by-cap": 1}
     if not ctx.quick:
         need = {"completed": 200, "sampler:ins": 60, "sampler:standard": 120,
                 "finalised": 80, "stopped-by-cap": 30, "resumed-run": 30}
